@@ -40,6 +40,13 @@ type largeCase struct {
 	pathBounds       []int // maxLength values for NumberOfInducedPaths
 	pathOracle       bool  // induced paths from the budgeted oracle (polynomially many on this family)
 	noCycleCall      bool
+	// The induced counters of the library need about n^3 steps on these
+	// families (and far more around a vertex of high degree), so: all bounds
+	// up to fullMaxN vertices; beyond that the light bounds on every
+	// representation and, up to heavyMaxN, the unbounded call once (sparse,
+	// identity labelling).
+	fullMaxN, heavyMaxN          int
+	lightBounds, lightPathBounds []int
 }
 
 func zeros(n int) []int { return make([]int, n) }
@@ -81,6 +88,7 @@ func largeCases(n int) []*largeCase {
 			lc.indPaths[k] = n - k
 		}
 		lc.bounds, lc.pathBounds = []int{-1, 3, n}, allBounds
+		lc.fullMaxN, lc.heavyMaxN, lc.lightBounds, lc.lightPathBounds = 130, 257, []int{3}, []int{0, 3}
 		add(lc)
 	}
 	// cycle
@@ -94,6 +102,7 @@ func largeCases(n int) []*largeCase {
 			lc.indPaths[k] = n
 		}
 		lc.bounds, lc.pathBounds = []int{-1, 3, n - 1, n, n + 1}, []int{-1, 2, n - 2, n - 1, n}
+		lc.fullMaxN, lc.heavyMaxN, lc.lightBounds, lc.lightPathBounds = 100, 257, []int{3}, []int{2}
 		add(lc)
 	}
 	// star
@@ -103,6 +112,7 @@ func largeCases(n int) []*largeCase {
 		lc.indPaths = zeros(n + 1)
 		lc.indPaths[0], lc.indPaths[1], lc.indPaths[2] = n, n-1, choose2(n-1)
 		lc.bounds, lc.pathBounds = []int{-1, 3}, []int{-1, 1, 2, 3, n}
+		lc.fullMaxN, lc.heavyMaxN, lc.lightBounds, lc.lightPathBounds = 33, 66, []int{3}, []int{1, 2}
 		add(lc)
 	}
 	// complete graph: distance-type functions and blocks only
@@ -177,6 +187,7 @@ func largeCases(n int) []*largeCase {
 		lc := base("caterpillar", g)
 		lc.girth, lc.tree, lc.pathOracle = -1, true, true
 		lc.bounds, lc.pathBounds = []int{-1, 3}, []int{-1, 2, n / 3, n}
+		lc.fullMaxN, lc.heavyMaxN, lc.lightBounds, lc.lightPathBounds = 100, 257, []int{3}, []int{2}
 		add(lc)
 	}
 	// broom: a path of n/2 vertices whose last vertex carries the other vertices as leaves
@@ -189,6 +200,7 @@ func largeCases(n int) []*largeCase {
 		lc := base("broom", g)
 		lc.girth, lc.diam, lc.tree, lc.pathOracle = -1, s, true, true
 		lc.bounds, lc.pathBounds = []int{3}, []int{-1, 2, s}
+		lc.fullMaxN, lc.heavyMaxN, lc.lightBounds, lc.lightPathBounds = 66, 100, []int{3}, []int{2}
 		add(lc)
 	}
 	// one long cycle of length L with pendant trees
@@ -204,6 +216,7 @@ func largeCases(n int) []*largeCase {
 		lc.cycles[L], lc.indCycles[L] = 1, 1
 		lc.pathOracle = true
 		lc.bounds, lc.pathBounds = []int{-1, 3, L - 1, L, L + 1, n}, []int{-1, 3, L - 1}
+		lc.fullMaxN, lc.heavyMaxN, lc.lightBounds, lc.lightPathBounds = 100, 257, []int{3}, []int{2}
 		add(lc)
 	}
 	// disjoint union: path, cycle, K_6, star and an isolated vertex
@@ -221,6 +234,7 @@ func largeCases(n int) []*largeCase {
 		lc.indCycles[3], lc.indCycles[b] = 20, lc.indCycles[b]+1
 		lc.pathOracle = true
 		lc.bounds, lc.pathBounds = []int{-1, 3, b, n}, []int{-1, 2, a}
+		lc.fullMaxN, lc.heavyMaxN, lc.lightBounds, lc.lightPathBounds = 66, 130, []int{3}, []int{2}
 		add(lc)
 	}
 	return out
@@ -245,6 +259,7 @@ func largeBlockForest(r *engine.Rng, n, idx int) *largeCase {
 	lc.tree = mode == conn.Trees && comps == 1
 	// every piece has at most 6 vertices: a bound of 6 covers all induced cycles, and short paths are few
 	lc.bounds, lc.pathBounds = []int{3, 6}, []int{0, 2, 3}
+	lc.fullMaxN = 257
 	lc.pathOracle = true
 	return lc
 }
@@ -391,11 +406,22 @@ func sample(r *engine.Rng, h *rg.G, wh *want, lc *largeCase, npairs int) *sampli
 		addv(r.Intn(n))
 	}
 	sort.Ints(s.verts)
+	bounds, pathBounds := lc.bounds, lc.pathBounds
+	if n > lc.fullMaxN {
+		bounds, pathBounds = lc.lightBounds, lc.lightPathBounds
+		if n <= lc.heavyMaxN {
+			s.heavyBounds, s.heavyPathBounds = []int{-1}, []int{-1}
+		}
+	}
 	if wh.indCycles != nil {
-		s.bounds = lc.bounds
+		s.bounds = bounds
+	} else {
+		s.heavyBounds = nil
 	}
 	if wh.indPaths != nil {
-		s.pathBounds = lc.pathBounds
+		s.pathBounds = pathBounds
+	} else {
+		s.heavyPathBounds = nil
 	}
 	return s
 }
@@ -413,7 +439,22 @@ func runLarge(c *engine.Ctx, lc *largeCase, r *engine.Rng, fixedSalt int) {
 	p := &plan{workload: "large " + lc.name, w: w, largeID: lc.name, info: map[string]interface{}{"family": lc.name}}
 	p.perms = [][]int{nil, r.Perm(n)}
 	p.permKind = []string{"identity", "seeded"}
-	p.reps = [][]string{{"dense", "sparse", "view"}, {[]string{"dense", "sparse"}[fixedSalt%2], "view"}}
+	// Neighbours of an InducedSubgraph view costs deg^2 (sorted insertion), and the BFS-based functions call it n times per root
+	view := []string{"view"}
+	cost := 0
+	for _, d := range lc.g.Degrees() {
+		cost += d * d
+	}
+	if cost*n > 200000000 {
+		view = nil
+		c.Obs("large:view_not_used_on_dense_graph", 1)
+	}
+	with := func(r ...string) []string { return append(r, view...) }
+	second := []string{[]string{"dense", "sparse", "view"}[fixedSalt%3]}
+	if view == nil && second[0] == "view" {
+		second[0] = "sparse"
+	}
+	p.reps = [][]string{with("dense", "sparse"), second}
 	cc := 12
 	if lc.noCycleCall {
 		cc = -1
@@ -422,7 +463,7 @@ func runLarge(c *engine.Ctx, lc *largeCase, r *engine.Rng, fixedSalt int) {
 	if c.Thorough() {
 		p.perms = append(p.perms, fixedRng(n, fixedSalt, 9).Perm(n), reverse(n))
 		p.permKind = append(p.permKind, "fixed", "reversed")
-		p.reps = [][]string{{"dense", "sparse", "view"}, {"dense", "sparse", "view"}, {"dense", "sparse", "view"}, {"sparse", "view"}}
+		p.reps = [][]string{with("dense", "sparse"), with("dense", "sparse"), with("dense", "sparse"), with("sparse")}
 		p.cycleCap = append(p.cycleCap, cc, cc)
 	}
 	p.viewRng = func(k int, rep string) *engine.Rng {
